@@ -46,6 +46,12 @@ def main():
     report = {"name": name, "property": prop}
     rc, out = sh(["git", "-C", "/repo", "apply", "--check", f"{sdir}/patch.diff"])
     report["patch_applies_to_repo_head"] = rc == 0
+    # a later fix: commit in /repo may touch the same lines; the patch is then still a valid
+    # change of the commit its worktree was created from
+    rcb, base = sh(["git", "-C", wt, "rev-parse", "--short", "HEAD"])
+    report["base_commit"] = base.strip()
+    rcr, _ = sh(["git", "-C", wt, "apply", "--check", "-R", f"{sdir}/patch.diff"])
+    report["patch_is_the_worktree_change"] = rcr == 0
     rc, out = sh(["git", "-C", wt, "diff"])
     report["worktree_diff_equals_patch"] = out.strip() == open(f"{sdir}/patch.diff").read().strip()
     env0 = dict(os.environ, PYTHONPATH="/repo/src")
@@ -69,7 +75,7 @@ def main():
             verdicts[f"{p}@{a.tier}@seed{seed}"] = {"exit": rc, "caught": rc == 1, "messages": msgs, "summary": out.strip().splitlines()[-1] if out.strip() else ""}
             shutil.rmtree(tmp, ignore_errors=True)
     report["checks"] = verdicts
-    ok = report["patch_applies_to_repo_head"] and rc0 == 0 and rc1 != 0 and (a.skip_tests or report.get("tests_pass"))
+    ok = (report["patch_applies_to_repo_head"] or report["patch_is_the_worktree_change"]) and rc0 == 0 and rc1 != 0 and (a.skip_tests or report.get("tests_pass"))
     report["kept"] = bool(ok)
     print(json.dumps(report, indent=1))
     if ok:
